@@ -76,6 +76,10 @@ impl ExtendedPrivateKey {
         let mut parent_fingerprint = vec![0; 4];
         cursor.read_exact(&mut parent_fingerprint)?;
         let index = cursor.read_u32::<BigEndian>()?;
+        // A key at depth 0 is a master key: it has no parent and no child number
+        if depth == 0 && (index != 0 || parent_fingerprint.iter().any(|byte| *byte != 0)) {
+            return Err(BSVErrors::GenericError("A key at depth 0 cannot have a parent fingerprint or a child number".into()));
+        }
 
         let mut chain_code = vec![0; 32];
         cursor.read_exact(&mut chain_code)?;
